@@ -369,3 +369,20 @@ def random_program(rng, max_steps=5, allow_fx=True, allow_fail=True):
                 ret = ['cont', args, {}]
         steps.append(step(ret, sync=sync, yields=yields, fx=fx))
     return {'steps': steps}
+
+
+class ProgBaseReq(ProgBase):
+    """Same interpreter, but the output spec has a required port ``req`` (int): a normal return
+    without it must end FINISHED, result preserved, unsuccessful."""
+
+    @classmethod
+    def define(cls, spec):
+        super().define(spec)
+        spec.output('req', valid_type=int, required=True)
+
+
+generated.register(ProgBaseReq, 'ProgBaseReq')
+
+
+def outputs_valid_req(outputs):
+    return isinstance(outputs.get('req'), int)
